@@ -67,6 +67,49 @@ theorem common_same_base (a b : Sc) (x : Scalar) (ha : a.top = some x) (hb : b.t
       rw [hc, castableS_antisymm (hl.2.2 x (castableS_refl x) (castableS_refl x)) hl.1]
   simp [commonType, commonSc, ha, hb, this]
 
+theorem implCastableL_length : ∀ as bs : List Ty, implCastableL as bs = true → as.length = bs.length
+  | [], [], _ => rfl
+  | a :: as, b :: bs, h => by
+    simp only [implCastableL, Bool.and_eq_true] at h
+    simp [implCastableL_length as bs h.2]
+  | [], _ :: _, h | _ :: _, [], h => by simp [implCastableL] at h
+
+theorem commonTypeL_length : ∀ as bs cs : List Ty, commonTypeL as bs = some cs →
+    as.length = bs.length ∧ cs.length = as.length
+  | [], [], cs, h => by simp only [commonTypeL] at h; cases h; exact ⟨rfl, rfl⟩
+  | a :: as, b :: bs, cs, h => by
+    simp only [commonTypeL] at h
+    split at h
+    · rename_i c cs' _ hcs'
+      cases h
+      have := commonTypeL_length as bs cs' hcs'
+      simp [this.1, this.2]
+    · cases h
+  | [], _ :: _, _, h | _ :: _, [], _, h => by simp [commonTypeL] at h
+
+/-- **Tuple arity is part of the type.**  A tuple is implicitly castable only to a tuple with the
+    same number of elements, and two tuples have a common type only if they have the same number of
+    elements — the common type then has that many too.  (`(1, 2) ?? (1, 2, 3)` is ill-typed.) -/
+theorem tuple_arity (as bs : List Ty) :
+    (implCastable (.tuple as) (.tuple bs) = true → as.length = bs.length) ∧
+    (∀ c, commonType (.tuple as) (.tuple bs) = some c →
+      ∃ cs, c = .tuple cs ∧ as.length = bs.length ∧ cs.length = as.length) := by
+  constructor
+  · intro h
+    simp only [implCastable] at h
+    exact implCastableL_length as bs h
+  · intro c h
+    simp only [commonType] at h
+    split at h
+    · rename_i he
+      cases h
+      have := Ty.beqL_eq as bs he
+      subst this
+      exact ⟨as, rfl, rfl, rfl⟩
+    · simp only [Option.map_eq_some_iff] at h
+      obtain ⟨cs, hcs, rfl⟩ := h
+      exact ⟨cs, rfl, commonTypeL_length as bs cs hcs⟩
+
 /-- The scalar algorithm iterates over Python `set`s of casts; `commonS` collects the results of
     ALL iteration orders.  On the generated table there is never a choice: no upper bound and no
     result, or exactly one result, the least upper bound. -/
@@ -327,6 +370,18 @@ example : commonType (.tuple [.scalar (.base .int64), .scalar (.base .str)])
 example : commonType (.scalar (.base .bigint)) (.scalar (.base .float64)) = none := by decide +kernel
 example : commonType (.array (.scalar (.base .int16))) (.array (.scalar (.base .decimal))) =
     some (.array (.scalar (.base .decimal))) := by decide +kernel
+
+/-- tuples of different arity have no common type, in every polymorphic context -/
+def tup2 : Ty := .tuple [.scalar (.base .int64), .scalar (.base .int64)]
+def tup3 : Ty := .tuple [.scalar (.base .int64), .scalar (.base .int64), .scalar (.base .int64)]
+example : commonType tup2 tup3 = none := by decide +kernel
+example : (resolve .op_coalesce [tup2, tup3]).ret? = none ∧ (resolve .op_union [tup2, tup3]).ret? = none ∧
+    (resolve .op_if [tup2, .scalar (.base .bool), tup3]).ret? = none ∧
+    (resolve .op_eq [tup2, tup3]).ret? = none ∧ (resolve .op_in [tup2, tup3]).ret? = none := by
+  decide +kernel
+example : inferType [] [] (.call .op_coalesce
+    [.empty tup2, .tuple [.lit (.int64 1), .lit (.int64 2), .lit (.int64 3)]]) = none := by decide +kernel
+example : inferType [] [] (.array [.empty tup2, .empty tup3]) = none := by decide +kernel
 
 /-- user scalars: `myint extending int64`, `yourint extending int64`, `posint extending myint` -/
 def myint : Ty := .scalar (.derived [1] .int64)
